@@ -114,8 +114,8 @@ Fixpoint first_false (i : Z) (l : list bool) : option Z :=
   end.
 
 (* finding classes: 1 empty case clause (Idx1 panics), 2 empty program (Idx0/Idx1 panic),
-   3 for(;;) initializer is an empty SequenceExpression (Idx0/Idx1 panic), 4 Walk hands a
-   typed-nil node to the visitor, 11 continue to a label that is not an iteration statement's,
+   3 for(;;) initializer is an empty SequenceExpression (Idx0/Idx1 panic), 4 Walk handed a
+   typed-nil node to the visitor (repaired in otto, adb8fc0: model = spec on every parser tree), 11 continue to a label that is not an iteration statement's,
    12, 13, 15, 16 pinned grammar probes; 14 (a switch cut off by the end of input was accepted) is
    repaired in otto: regression probes only, no span reason any more; 17 repaired C03-side parser
    defects kept as must-accept regression probes *)
